@@ -143,6 +143,9 @@ func (pe *pipeEnv) credCase(c *credCase) map[string]any {
 		}
 	}
 	host := c.Req.Host + ".test"
+	if c.Req.Host == "originUpper" {
+		host = "ORIGIN.TEST"
+	}
 	hp := host
 	if c.Req.Port == "8080" {
 		hp = host + ":8080"
